@@ -26,14 +26,17 @@ PROPERTY = "C35"
 TECHNIQUE = "runtime monitoring; reference model (python tuple / numpy indexing, float64 offset+i*sampling) on real axis objects, hooks on OrdinalAxis.__getitem__/concatenate inside array-object pipelines"
 RULE = ("axis class drawn from all dataclasses of abtem.core.axes (18), each field set with probability 0.6 to a random value of "
         "the field's kind; ordinal values: ints/floats/strings/mixed/pairs/triples/ragged tuples/lists/numpy scalars/1-D and 2-D "
-        "ndarrays, length 0-9; 4 items per case (int, numpy int, slice with step, index list/array, boolean mask); linear axes: "
+        "ndarrays, a bare number, falsy values (0, 0.0, False, '', None, ()), length 0-9 with single-value axes favoured; 4 items per case "
+        "(int incl. 0/-1/-n, numpy ints of every width and signedness, slice with step, index list/array of several dtypes, boolean "
+        "mask); linear axes: "
         "sampling/offset log-uniform of either sign, numpy scalar types, n in {0,1,2,..,64}; non-trivial = ordinal axis with >=2 "
         "values or linear axis with n>=2; distinct = distinct case signature")
 CLAUSES = ["roundtrip-type", "roundtrip-fields", "roundtrip-eq", "roundtrip-input-unchanged", "getitem-values", "getitem-meta",
            "concatenate-values", "concatenate-meta", "linear-coordinates", "pipeline-getitem", "pipeline-concatenate"]
-QUICK = dict(n=6000, time=40)
+QUICK = dict(n=4000, time=40)
 THOROUGH = dict(n=40000, time=150, shards=16)
 
+NP_INDEX_TYPES = ["int64", "int32", "int16", "int8", "uint8", "uint16", "uint32", "uint64", "intp"]
 STRS = ["", "x", "thickness", "x, y", "Å", "1/Å", "mrad", "α β", "$\\alpha$", "e/Å^2", "a b [c]", "unknown"]
 
 
@@ -46,9 +49,16 @@ def axis_classes():
 # --------------------------------------------------------------------------- generators (JSON descriptions)
 def _values_spec(rng, n=None):
     kind = str(rng.choice(["ints", "floats", "strs", "mixed", "pairs", "triples", "ragged", "lists", "npscalars", "nd1", "nd2",
-                           "strpairs", "none-mixed"]))
+                           "strpairs", "none-mixed", "scalar", "falsy"]))
     if n is None:
-        n = int(rng.choice([0, 1, 1, 2, 3, 4, 5, 7, 9]))
+        n = int(rng.choice([0, 1, 1, 1, 2, 3, 4, 5, 7, 9]))
+    if kind == "scalar":
+        # a bare number: OrdinalAxis turns it into a one-value axis
+        return {"kind": "scalar", "data": [float(rng.choice([0.0, -0.0, 1.0, 3.5, -2.0]))],
+                "dtype": str(rng.choice(["float", "int", "float64", "float32", "int64"]))}
+    if kind == "falsy":
+        pool = [0, 0.0, False, "", None, [], -0.0]
+        return {"kind": "falsy", "data": [pool[int(rng.integers(0, len(pool)))] for _ in range(n)], "dtype": "float64"}
     f = lambda: float(np.round(rng.normal() * 10.0 ** int(rng.integers(-3, 4)), 6))
     i = lambda: int(rng.integers(-50, 50))
     s = lambda: str(rng.choice(STRS))
@@ -86,6 +96,11 @@ def build_values(spec):
         return np.array(d, dtype=spec["dtype"])
     if k == "nd2":
         return np.array(d, dtype="float64").reshape(len(d), 2)
+    if k == "scalar":
+        t = spec["dtype"]
+        return float(d[0]) if t == "float" else int(d[0]) if t == "int" else getattr(np, t)(d[0])
+    if k == "falsy":
+        return tuple(tuple(x) if isinstance(x, list) else x for x in d)
     return tuple(d)
 
 
@@ -137,15 +152,20 @@ def build_field(spec):
 def _item_spec(rng, n):
     kinds = ["slice", "slice", "list", "intarray", "boolarray"] + (["int", "npint"] if n > 0 else [])
     kind = str(rng.choice(kinds))
-    if kind in ("int", "npint"):
-        return {"kind": kind, "v": int(rng.integers(-n, n))}
+    if kind == "npint":
+        t = str(rng.choice(NP_INDEX_TYPES))
+        lo = -n if np.iinfo(getattr(np, t)).min < 0 else 0
+        return {"kind": "npint", "v": int(rng.integers(lo, n)), "dtype": t}
+    if kind == "int":
+        return {"kind": kind, "v": int(rng.choice([0, -1, n - 1, -n, int(rng.integers(-n, n))]))}
     if kind == "slice":
         pick = lambda: None if rng.random() < 0.35 else int(rng.integers(-n - 2, n + 3))
         step = None if rng.random() < 0.5 else int(rng.choice([1, 2, 3, -1, -2]))
         return {"kind": "slice", "v": [pick(), pick(), step]}
     if kind in ("list", "intarray"):
         m = int(rng.integers(0, 6)) if n > 0 else 0
-        return {"kind": kind, "v": [int(rng.integers(-n, n)) for _ in range(m)]}
+        return {"kind": kind, "v": [int(rng.integers(-n, n)) for _ in range(m)],
+                "dtype": str(rng.choice(["int64", "int64", "int32", "uint8", "intp"]))}
     return {"kind": "boolarray", "v": [bool(rng.random() < 0.5) for _ in range(n)]}
 
 
@@ -154,20 +174,26 @@ def build_item(spec):
     if k == "int":
         return v
     if k == "npint":
-        return np.int64(v)
+        return getattr(np, spec.get("dtype", "int64"))(v)
     if k == "slice":
         return slice(*v)
     if k == "list":
         return list(v)
     if k == "intarray":
-        return np.array(v, dtype=np.int64)
+        t = spec.get("dtype", "int64")
+        if t.startswith("u") and any(x < 0 for x in v):
+            t = "int64"
+        return np.array(v, dtype=t)
     return np.array(v, dtype=bool)
 
 
 def gen(rng, tier):
     names = sorted(axis_classes())
     if rng.random() < 0.02:
-        return {"kind": "pipeline", "values": _values_spec(rng, n=int(rng.integers(2, 8))), "chunk": int(rng.integers(1, 4)),
+        spec = _values_spec(rng, n=int(rng.integers(2, 8)))
+        while spec["kind"] == "scalar":          # an array object needs as many values as members
+            spec = _values_spec(rng, n=int(rng.integers(2, 8)))
+        return {"kind": "pipeline", "values": spec, "chunk": int(rng.integers(1, 4)),
                 "split": float(rng.random()), "seed": int(rng.integers(0, 2 ** 31))}
     cls = str(rng.choice(names))
     C = axis_classes()[cls]
@@ -177,14 +203,15 @@ def gen(rng, tier):
             fields[f.name] = _field_spec(rng, f.name)
     case = {"kind": "axis", "cls": cls, "fields": fields}
     if "values" in [f.name for f in dataclasses.fields(C)]:
-        n = len(fields["values"]["v"]["data"]) if "values" in fields else 0
+        n = len(fields["values"]["v"]["data"]) if "values" in fields else 0      # ("scalar" carries exactly one datum)
         case["items"] = [_item_spec(rng, n) for _ in range(4)]
         if "values" in fields and rng.random() < 0.7:
             case["other"] = _values_spec_like(rng, fields["values"]["v"])
         else:
             case["other"] = _values_spec(rng)
     if "sampling" in [f.name for f in dataclasses.fields(C)]:
-        case["ns"] = [int(x) for x in rng.choice([0, 1, 2, 3, 5, 8, 17, 64], size=3)]
+        case["ns"] = [int(x) for x in rng.choice([0, 1, 1, 2, 3, 5, 8, 17, 64], size=3)]
+        case["n_as"] = str(rng.choice(["int", "int", "np.int64", "np.int32"]))
     return case
 
 
@@ -221,6 +248,31 @@ def fixed_cases(tier):
             case["fields"]["offset"] = {"f": "scalar", "v": {"v": -3.7, "as": "float"}}
             case["ns"] = [0, 1, 10]
         out.append(case)
+    # hostile values: one-value axes (tuple, bare number, numpy scalar), falsy values, numpy scalar indices of every width
+    one_items = [{"kind": "npint", "v": 0, "dtype": "uint8"}, {"kind": "npint", "v": -1, "dtype": "int8"},
+                 {"kind": "int", "v": 0}, {"kind": "slice", "v": [0, None, None]}, {"kind": "boolarray", "v": [True]},
+                 {"kind": "intarray", "v": [0, 0], "dtype": "uint8"}]
+    for cls in ("OrdinalAxis", "NonLinearAxis", "ThicknessAxis", "ParameterAxis"):
+        for spec in ({"kind": "floats", "data": [0.0], "dtype": "float64"}, {"kind": "scalar", "data": [0.0], "dtype": "float"},
+                     {"kind": "scalar", "data": [3.5], "dtype": "float32"}, {"kind": "scalar", "data": [1.0], "dtype": "int"},
+                     {"kind": "falsy", "data": [0], "dtype": "float64"}):
+            out.append({"kind": "axis", "cls": cls, "fields": {"values": {"f": "values", "v": spec},
+                                                                 "label": {"f": "str", "v": ""}, "units": {"f": "str", "v": None}},
+                        "items": one_items, "other": {"kind": "floats", "data": [], "dtype": "float64"}})
+    out.append({"kind": "axis", "cls": "OrdinalAxis",
+                "fields": {"values": {"f": "values", "v": {"kind": "falsy", "data": [0, 0.0, False, "", None, []], "dtype": "float64"}}},
+                "items": [{"kind": "npint", "v": k, "dtype": t} for k, t in ((5, "uint64"), (2, "int16"), (-6, "int32"), (0, "intp"))]
+                + [{"kind": "intarray", "v": [5, 0, 2], "dtype": "uint8"}],
+                "other": {"kind": "falsy", "data": [None, 0], "dtype": "float64"}})
+    for cls in ("LinearAxis", "RealSpaceAxis", "ReciprocalSpaceAxis", "ScanAxis"):
+        out.append({"kind": "axis", "cls": cls, "fields": {"sampling": {"f": "scalar", "v": {"v": 0.0, "as": "float"}},
+                                                             "offset": {"f": "scalar", "v": {"v": 2.0, "as": "int"}}},
+                    "ns": [1, 0, 3], "n_as": "np.int64"})
+        out.append({"kind": "axis", "cls": cls, "fields": {"sampling": {"f": "scalar", "v": {"v": 2.0, "as": "int"}},
+                                                             "offset": {"f": "scalar", "v": {"v": 0.0, "as": "float32"}},
+                                                             "units": {"f": "str", "v": ""}}, "ns": [1, 2, 5], "n_as": "np.int32"})
+    out.append({"kind": "pipeline", "values": {"kind": "floats", "data": [0.0, 1.0], "dtype": "float64"}, "chunk": 1, "split": 0.5,
+                "seed": 0})
     return out
 
 
@@ -363,7 +415,8 @@ def check_axis(ctx, case):
     if "sampling" in names and "ns" in case:
         s64, o64 = float(a.sampling), float(a.offset)
         for n in case["ns"]:
-            got = a.coordinates(n)
+            n_obj = getattr(np, case["n_as"][3:])(n) if case.get("n_as", "int") != "int" else n
+            got = a.coordinates(n_obj)
             ctx.expect(isinstance(got, tuple) and len(got) == n, "linear-coordinates", what="length", n=n,
                        got_len=len(got))
             if n and len(got) == n:
